@@ -72,7 +72,8 @@ FALLBACK = TYPES + (
     "def modeOp : String := \"\"\ndef detOp : String := \"\"\n"
     "def postInitModeOp : String := \"\"\ndef postInitDetOp : String := \"\"\n"
     "def modeDispatch : List String := []\ndef detDispatch : List String := []\n"
-    "def sweepUsesSetter : Bool := false"
+    "def sweepUsesSetter : Bool := false\n"
+    "def apdTable : List (Option Rat × Option Rat × Option Rat × Bool) := []"
 )
 
 
@@ -582,6 +583,41 @@ def sweep_uses_setter() -> bool:
     return bool(config_facts().get("setter"))
 
 
+# ------------------------------------------------------------------ APD: the three bias inputs (any two determine the third)
+APD_PROBE = r"""
+import json, warnings
+warnings.filterwarnings("ignore")
+from pyxel.detectors import APDCharacteristics
+GAINS = [None, 0.5, 1, 2, 1000, 1001]
+PRVS = [None, 2, 3, 5, 12]
+CVS = [None, 1, 2, 2.5, 4]
+rows = []
+for g in GAINS:
+    for p in PRVS:
+        for c in CVS:
+            kw = {k: v for k, v in (("avalanche_gain", g), ("pixel_reset_voltage", p), ("common_voltage", c)) if v is not None}
+            try:
+                APDCharacteristics(roic_gain=0.8, **kw)
+                ok = True
+            except Exception:
+                ok = False
+            rows.append([g, p, c, ok])
+print(json.dumps(rows))
+"""
+
+
+def apd_table():
+    key = "apd:" + str(REPO)
+    if key not in _FACTS:
+        res = run_in_repo(APD_PROBE, timeout=120)
+        _FACTS[key] = res if isinstance(res, list) else []
+    return _FACTS[key]
+
+
+def _lopt(v):
+    return "none" if v is None else f"(some {lrat(Fraction(v))})"
+
+
 def gen() -> str:
     table, opaque = extract()
     facts = config_facts()
@@ -602,5 +638,8 @@ def gen() -> str:
         f"def postInitDetOp : String := {lstr(facts['postInitDetOp'])}\n"
         f"def modeDispatch : List String := {llist(facts['modeDispatch'])}\n"
         f"def detDispatch : List String := {llist(facts['detDispatch'])}\n"
-        f"def sweepUsesSetter : Bool := {lbool(sweep_uses_setter())}"
+        f"def sweepUsesSetter : Bool := {lbool(sweep_uses_setter())}\n"
+        "/-- (avalanche_gain, pixel_reset_voltage, common_voltage, accepted by the constructor) on a grid, observed -/\n"
+        "def apdTable : List (Option Rat × Option Rat × Option Rat × Bool) := ["
+        + ", ".join(f"({_lopt(g)}, {_lopt(p_)}, {_lopt(c)}, {lbool(ok)})" for g, p_, c, ok in apd_table()) + "]"
     )
